@@ -1,22 +1,22 @@
 SPECIFICATION GSpec
 CONSTANTS
   BUF = 32
-  Clients = {1, 2, 3}
-  Fds = {1, 2, 3}
-  MaxConn = 3
+  Clients = {1, 2}
+  Fds = {1, 2}
+  MaxConn = 2
   Rogue = {}
-  Programs = {1, 2, 3, 4, 6, 9}
+  Programs = {3}
   SndCap = 100000
-  EventsCap = 5
+  EventsCap = 4
   LimitN = 20
-  HasKill = TRUE
+  HasKill = FALSE
   AllowKill = FALSE
   AllowFds = FALSE
-  AllowFlush = TRUE
-  EmitAtBound = FALSE
+  AllowFlush = FALSE
+  EmitAtBound = TRUE
   Pin1 = 0
   Pin2 = 0
-  HistMax = 60
+  HistMax = 13
   AtomicPoll = TRUE
 INVARIANTS Emit PollOK TokensOK InterestsOK
 CHECK_DEADLOCK FALSE
